@@ -15,6 +15,10 @@ pub struct ScriptCase {
     pub bin: String,
     /// bash queries: (subcommand path by spellings, word under the cursor)
     pub queries: Vec<(Vec<String>, String)>,
+    /// a command line parsed with the same `Command` value before the scripts are generated from it (an application
+    /// that handles `completions <shell>` after parsing)
+    #[serde(default)]
+    pub parsed_first: Option<Vec<String>>,
 }
 
 pub const SHELLS: &[&str] = &["bash", "zsh", "fish", "powershell", "elvish", "nushell"];
@@ -498,7 +502,20 @@ impl Property for Scripts {
         if let Some(q) = forced_query {
             queries.push(q);
         }
-        ScriptCase { spec, bin, queries }
+        // a quarter of the cases parse a line that walks down the subcommand tree first
+        let parsed_first = if t.chance(1, 4) {
+            let mut line = vec![bin.clone()];
+            let mut level = &spec;
+            while !level.subs.is_empty() && !t.chance(1, 4) {
+                let sc = &level.subs[t.choose(level.subs.len())];
+                line.push(sc.name.clone());
+                level = sc;
+            }
+            Some(line)
+        } else {
+            None
+        };
+        ScriptCase { spec, bin, queries, parsed_first }
     }
     fn run(&self, case: &ScriptCase, ctx: &mut Ctx) -> Verdict {
         if case.bin.is_empty() || case.bin.contains(' ') {
@@ -508,6 +525,16 @@ impl Property for Scripts {
             Built::Ok(c) => c,
             Built::Invalid(_) => return Verdict::Discard("invalid-config"),
             Built::Panic(p) => return Verdict::Fail(Failure::from_panic(&p)),
+        };
+        let cmd = match &case.parsed_first {
+            Some(line) => {
+                let mut used = cmd.clone();
+                // (the outcome of the parse is C01's business; the definition must still generate afterwards)
+                let _ = catch(|| used.try_get_matches_from_mut(line.iter()).map(|_| ()).map_err(|_| ()));
+                ctx.label("generated-after-a-parse");
+                used
+            }
+            None => cmd,
         };
         let mut built = cmd.clone();
         built.build();
